@@ -20,10 +20,13 @@ Definition retry_text (r : option retry) : str :=
 Definition fmt_inline (e : experr) : str :=
   lit "error" ++ match e with EInline re => sp ++ re | _ => [] end.
 
+(* the trimmed text followed by a line feed; nothing for an empty text *)
+Definition multi_body (t : str) : str := match trim t with [] => [] | x => x ++ nl1 end.
+
 (* ExpectedError::fmt_multiline *)
 Definition fmt_multiline (e : experr) : str :=
   match e with
-  | EMulti t => lit "----" ++ nl1 ++ trim t ++ nl1 ++ nl1
+  | EMulti t => lit "----" ++ nl1 ++ multi_body t ++ nl1
   | _ => []
   end.
 
@@ -57,7 +60,7 @@ Definition display (r : record) : option str :=
   | RSystem _ _ cmd out rt =>
       Some (lit "system ok" ++ retry_text rt ++ nl1 ++ cmd ++ nl1 ++
             (match out with
-             | Some t => lit "----" ++ nl1 ++ trim t ++ nl1 ++ nl1
+             | Some t => lit "----" ++ nl1 ++ multi_body t ++ nl1
              | None => []
              end))
   | RSleep _ d => Some (lit "sleep " ++ compact_duration d)
